@@ -3,11 +3,12 @@
 Lean: Model/HostTrust.lean (decision), Model/HostTrustMachine.lean (client trace machine), Lemmas/HostTrust*.lean,
 Props/C04.lean (accept_iff, accept_iff_default, revoked_wins, revoked_never_used, revoked_wins_full_false (witness of
 the defect fixed by 6942731), no_auth_before_trust, liar_rejected, untrusted_fails_closed,
-bad_signature_fails_closed, ...), Gen/C04.lean regenerated from SSHOpenSSHCertificate.validate and
+bad_signature_fails_closed, wrong_key_alg_fails_closed, wrong_sig_alg_fails_closed, ...), Gen/C04.lean regenerated
+from SSHOpenSSHCertificate.validate and
 _validate_openssh_host_certificate.
 Correspondence: full asyncssh.connect() of a real client against a real in-process server (generated known_hosts
-texts x server key/certificate variants x host/alias/addr/port x virtual clock x lying servers x packets injected in
-the clear) against the Lean driver: offered algorithms, decision, reason, callbacks, and the ordered trace
+texts - also as key lists holding key objects with their private part - x server key/certificate variants x
+host/alias/addr/port x virtual clock x lying servers x packets injected in the clear) against the Lean driver: offered algorithms, decision, reason, callbacks, and the ordered trace
 (validation outcome, signature check, NEWKEYS / SERVICE_REQUEST / USERAUTH_REQUEST / DISCONNECT sent).
 Oracle: the property's predicate with ground truth known by construction, observed from outside (exception class,
 ordered tap log, the client's byte stream on the wire, what the server received).
@@ -41,7 +42,9 @@ MANIFEST = {
             'USERAUTH_REQUEST is preceded by an accepted host key and a verified signature over the exchange hash '
             '(no_auth_before_trust); under the ideal-signature hypothesis a server that cannot sign for the key it '
             'shows never gets there (liar_rejected); an untrusted key ends in HostKeyNotVerifiable and silence '
-            '(untrusted_fails_closed). The certificate tests and the arguments of cert.validate are regenerated from '
+            '(untrusted_fails_closed), so does a key that does not fit the negotiated host key algorithm, and a '
+            'signature naming another signature algorithm ends in KeyExchangeFailed (wrong_key_alg_fails_closed, '
+            'wrong_sig_alg_fails_closed). The certificate tests and the arguments of cert.validate are regenerated from '
             'the source; the model is tied to the code by full connect() runs against an in-process server with '
             'generated known_hosts files, certificates, a virtual clock, lying servers and clear-text injections; the '
             'property is evaluated directly on the real client from outside.',
@@ -91,7 +94,9 @@ def driver_line(case: Dict[str, Any], descs: List[Dict[str, Any]], trust: Option
         keyalgs = ','.join(trust['algs']) or '-'
     ao = case.get('algopt')
     algopt = 'unset' if ao is None else 'default' if ao == 'default' else 'e:' + ','.join(ao)
-    creds = ';'.join('%s|%s|%s' % (','.join(d['algs']), d['presented'], d['signer']) for d in descs)
+    creds = ';'.join('%s|%s|%s|%s|%s' % (','.join(d['algs']), d['presented'], d['signer'],
+                                         ','.join(d.get('fits', d['algs'])) or '-',
+                                         ','.join(d.get('named', d['algs'])) or '-') for d in descs)
     return ' '.join(['case', hx_str(case['host']), hx_str(case['alias']), hx_str(case['addr']), str(case['port']),
                      t, '1' if case.get('cb_key') else '0', '1' if case.get('cb_ca') else '0', str(case['now4']),
                      algopt, keyalgs, creds, case.get('script', '-') or '-',
@@ -362,6 +367,8 @@ def check_safety(case: Dict[str, Any], r: Dict[str, Any], expect: Optional[bool]
                 'not-yet-valid' if now < ce['after'] else 'expired' if now >= ce['before'] else \
                 'wrong-principal' if ce['principals'] and lh not in ce['principals'] else 'other'
             sig = 'invalid-certificate-accepted:' + why
+        if case['kh']['form'] in ('tuplepriv', 'tuplerevpriv') and (it.get('key_revoked') or it.get('ca_revoked')):
+            sig += ':listed-as-key-object-with-private-part'
         fail(sig, 'the trust configuration does not accept this server key for (%s, %s, %d) at t=%s but the client '
                   '%s; known_hosts=%r, credential=%s' %
              (L.lookup_args(case)[0], case['addr'], case['port'], case['now4'] / 4.0,
@@ -446,9 +453,34 @@ def oracle(ctx: Ctx) -> OracleResult:
                              (out.evaluations, len(out.failures)))
             break
     out.nontrivial = len(distinct)
+    oracle_key_objects(ctx, out, hist)
     oracle_sock(ctx, out, hist)
     out.histogram = dict(hist)
     return out
+
+
+def oracle_key_objects(ctx: Ctx, out: OracleResult, hist: Hist) -> None:
+    """The key-list form of known_hosts with key objects that carry their private part: the sets list the same keys
+    as the text does, so a revoked key or CA must be refused and (recorded only) a listed key accepted."""
+    rng = ctx.subrng('oracle-key-objects')
+    cases: List[Dict[str, Any]] = []
+    for sc in ('plain-revoked', 'plain-only-revoked', 'cert-revoked-ca', 'cert-subject-revoked', 'plain-trusted',
+               'cert-ok', 'plain-untrusted'):
+        for _ in range(ctx.n(6, 30)):
+            c = G.gen_case(rng, sc)
+            if c['kh']['form'] in ('none', 'nohome', 'homefile') or c['intent'].get('scripted'):
+                continue
+            c['kh']['form'] = 'tuplerevpriv' if 'revoked' in sc and rng.random() < 0.8 else 'tuplepriv'
+            cases.append(c)
+    runs = run_cases(cases, ctx.tmpdir())
+    for c, r in zip(cases, runs):
+        out.evaluations += 1
+        expect = expected_accept(c)
+        hist.hit('key-objects:%s:expect=%s:%s' % (c['scenario'], expect, L.classify_error(r['exc'], r['msg'])))
+        out.failures += check_safety(c, r, expect)
+        if expect is True and r['exc'] is not None:
+            hist.hit('note:key-objects:trusted-server-refused')
+    out.nontrivial += len(set((c['scenario'], r['exc']) for c, r in zip(cases, runs)))
 
 
 def oracle_sock(ctx: Ctx, out: OracleResult, hist: Hist) -> None:
